@@ -7,10 +7,12 @@ import (
 	_ "verif/props/c02"
 	_ "verif/props/c03"
 	_ "verif/props/c04"
+	_ "verif/props/c05"
 	_ "verif/props/c06"
 	_ "verif/props/c07"
 	_ "verif/props/c08"
 	_ "verif/props/c09"
+	_ "verif/props/c10"
 	_ "verif/props/c11"
 	_ "verif/props/c12"
 	_ "verif/props/c13"
